@@ -38,6 +38,10 @@ impl LeafCache {
 
     /// Get a cache entry, updating the LRU state.
     pub fn get(&self, page_number: PageNumber) -> Option<Arc<LeafNode>> {
+        #[cfg(feature = "verif")]
+        if crate::verif::knobs::leaf_cache_forgets(page_number.0) {
+            return None;
+        }
         let mut shard = self.inner.shard_for(page_number);
 
         shard.cache.get(&page_number).map(|x| x.clone())
